@@ -634,11 +634,18 @@ fn equality(rep: &Reporter) -> EqStats {
                     );
                     break;
                 };
-                if !x.value_order_kept(&a) || !y.value_order_kept(&b) {
+                let bad = if !x.value_order_kept(&a) {
+                    Some((i, x, &a))
+                } else if !y.value_order_kept(&b) {
+                    Some((j, y, &b))
+                } else {
+                    None
+                };
+                if let Some((which, spec, emitted)) = bad {
                     report(
                         "http-request/multi-value-order",
-                        format!("the values of a multi-valued header do not reach the wire in the order the app gave them ({} header lines): described {:?}, emitted {:?} (evaluation {n} of {N})", x.lines(), x.headers, a.headers),
-                        json!({"kind": "HttpRequest", "left": i, "right": j}),
+                        format!("the values of a multi-valued header do not reach the wire in the order the app gave them (request #{which}, {} header lines): described {:?}, emitted {:?} (evaluation {n} of {N})", spec.lines(), spec.headers, emitted.headers),
+                        json!({"kind": "HttpRequest", "left": which, "right": which}),
                     );
                     break;
                 }
